@@ -252,7 +252,26 @@ func (c *EvalCtx) eval(x Expr) Value {
 		}
 		body := cc.boolean(e.Body)
 		if e.Kind == "forall" {
-			return Forall(bound, body)
+			var pats [][]*Term
+			for _, pe := range e.Pats {
+				var pt []*Term
+				for _, x := range pe {
+					switch pv := cc.eval(x).(type) {
+					case *Term:
+						pt = append(pt, pv)
+					case StrV:
+						if pv.Arr.Op == "tq_sarr" {
+							pt = append(pt, pv.Arr.Args[0])
+						} else {
+							pt = append(pt, pv.Len)
+						}
+					default:
+						c.fail("bad pattern %s", exprStr(x))
+					}
+				}
+				pats = append(pats, pt)
+			}
+			return Forall(bound, body, pats...)
 		}
 		return Exists(bound, body)
 	case *EField:
@@ -639,6 +658,15 @@ func (c *EvalCtx) call(e *ECall) Value {
 			return c.fail("inside: not byte sequences")
 		}
 		return Or(Eq(sl, Num(0)), And(Eq(sa, da), Le(do, so), Le(Add(so, sl), Add(do, dl))))
+	case "window":
+		// window(s, data, off, n): s is literally data[off:off+n] (same array snapshot), or both are empty
+		sa, so, sl, ok1 := c.arrOf(c.eval(arg(0)))
+		da, do, _, ok2 := c.arrOf(c.eval(arg(1)))
+		if !ok1 || !ok2 {
+			return c.fail("window: not byte sequences")
+		}
+		off, n := c.term(arg(2)), c.term(arg(3))
+		return Or(And(Eq(sl, Num(0)), Eq(n, Num(0))), And(Eq(sa, da), Eq(so, Add(do, off)), Eq(sl, n)))
 	case "within":
 		// within(s, data): slice s lies inside slice data (same backing object)
 		a, ok1 := c.eval(arg(0)).(SliceV)
@@ -674,8 +702,7 @@ func (c *EvalCtx) call(e *ECall) Value {
 		if !ok {
 			return c.fail("ascii of non-string")
 		}
-		i := FreshBound("a", SInt)
-		return Forall([]*Term{i}, Implies(And(Le(Num(0), i), Lt(i, l)), Le(Select(a, Add(o, i)), Num(127))))
+		return App("tq_ascii", SBool, a, o, l)
 	case "isConst":
 		tv, ok := c.eval(arg(0)).(TypeV)
 		if !ok {
@@ -975,6 +1002,21 @@ func spliceFn(srt string) string {
 // holding a reference-shaped value (slice header, pointer) are strong updates.
 func (c *EvalCtx) assume(x Expr) {
 	switch e := x.(type) {
+	case *ECall:
+		if e.Fun == "fresh" && len(e.Args) == 1 {
+			// assumed freshness of a callee result: the backing object is new to the caller
+			switch s := c.eval(e.Args[0]).(type) {
+			case SliceV:
+				if s.Obj != nil {
+					s.Obj.Fresh = true
+				}
+			case PtrV:
+				if s.Obj != nil {
+					s.Obj.Fresh = true
+				}
+			}
+			return
+		}
 	case *EBinary:
 		if e.Op == "&&" {
 			c.assume(e.X)
